@@ -12,11 +12,6 @@ ORDER_SAFE = {
     ('k.kore_convertion.language_semantics', 'LanguageSemantics.notations', '_inferred_notations', 'star'):
         'the tuple only feeds the notation lookup dictionary {definition: notation} and add_notation de-duplication; its order matters '
         'only if two notations share a definition (advisory)',
-    ('metamath.converter.converter', 'MetamathConverter._import_axiom', 'metavar_names', 'call:tuple'):
-        'Axiom.metavars is read only through len(), set() and membership (get_metavars / get_metavars_in_order filter the ordered '
-        '_floating_patterns list)',
-    ('metamath.converter.converter', 'MetamathConverter._import_lemma', 'metavar_names', 'call:tuple'):
-        'Lemma.metavars is read only through len(), set() and membership',
 }
 
 # entry points whose output must be deterministic (C18): (module, qualified name)
